@@ -960,7 +960,10 @@ LEVEL_TEXT = ('Machine-checked theorems, for lineages and ACLs of any size, stat
               'that rewrites which spend the loop fuel differently are absorbed): C11_lineage_exact proves that, for a lineage of ANY '
               'length, it yields exactly the resource, its parent, ... up to the first one whose __parent__ is None or missing; '
               'C11_world_permits_first_match / C11_world_allowed_consistent state the property end to end (lineage() then ACL scan); '
-              'C11_chain_world_acls ties the world the harness builds to the ACL list of the case. The extracted program is '
+              'C11_chain_world_acls ties the world the harness builds to the ACL list of the case. Monotonicity in the ancestors '
+              '(C11_permits_ancestors_irrelevant_once_decided, C11_permits_inherits_when_undecided_generated, '
+              'C11_world_permits_ancestors, C11_has_permission_ancestors): a decision taken by an ACE of the lineage is unchanged by '
+              'anything put above it, an undecided lineage inherits exactly the ancestors\' decision. The extracted program is '
               'run differentially against the code through ACLHelper, ACLAuthorizationPolicy, request.has_permission (explicit and '
               'default context, with and without policy), security.principals_allowed_by_permission and view_execution_permitted.')
 LEVEL_NOTE = ('Trusted: Coq kernel; the translator (mechanical control-flow rules + the primitive table in the docstring of '
